@@ -137,9 +137,22 @@ def rdm_strategy(tier, shard=0, nshards=1):
 def rdm_body(ctx, case):
     s = measure.Setup(case)
     ctx.case({k: case[k] for k in ("kind", "norb", "nelec", "params")}, nontrivial=s.nelec[0] + s.nelec[1] >= 2 or s.norb > 1, classes=["rdm1:" + s.kind, f"shape:{s.norb}:{s.nelec[0]},{s.nelec[1]}"])
-    if s.kind == "noci" and abs(np.vdot(s.psi, s.psi)) < 1e-6:
-        ctx.count("skipped:noci-norm-near-zero")
-        return
+    if s.kind == "noci":
+        if abs(np.vdot(s.psi, s.psi)) < 1e-6:
+            ctx.count("skipped:noci-norm-near-zero")
+            return
+        # the transition density matrices are built from inverses of the pairwise orbital overlap matrices: pairs of
+        # (nearly) orthogonal determinants are the removable singularity of that formula - skipped and counted
+        ups, dns = np.asarray(case["params"]["dets_up"]), np.asarray(case["params"]["dets_dn"])
+        worst = 1.0
+        for a in range(len(ups)):
+            for b in range(len(ups)):
+                for A, B, n in ((ups[a], ups[b], s.nelec[0]), (dns[a], dns[b], s.nelec[1])):
+                    if n:
+                        worst = max(worst, np.linalg.cond(A[:, :n].T @ B[:, :n]))
+        if worst > 1e6:
+            ctx.count("skipped:noci-orthogonal-determinant-pair")
+            return
     try:
         got = np.asarray(s.trial.get_rdm1(s.wave_data))
     except Exception as e:
